@@ -68,11 +68,40 @@ def get_net(site, basic, idx):
     return _nets[key]
 
 
+_extra = {}
+
+
+def get_extra(site, basic, idx):
+    """per instance: an Interface on the network, the network reloaded from its own JSON, an Interface on
+    that; what the reload preserved"""
+    key = (site, idx)
+    if key not in _extra:
+        import numpy as np
+        from acnportal.acnsim.network import ChargingNetwork
+        net = get_net(site, basic, idx)
+        itf = c06.make_interface(net)
+        rel = ChargingNetwork.from_json(net.to_json())
+        ritf = c06.make_interface(rel)
+        same = dict(
+            station_ids=list(rel.station_ids) == list(net.station_ids),
+            phase_angles=bool(np.array_equal(rel._phase_angles, net._phase_angles)),
+            voltages=bool(np.array_equal(rel._voltages, net._voltages)),
+            constraint_matrix=bool(np.array_equal(rel.constraint_matrix, net.constraint_matrix)),
+            limits=bool(np.array_equal(rel.magnitudes, net.magnitudes)),
+            constraint_index=list(rel.constraint_index) == list(net.constraint_index),
+            phase_by_id=dict(rel.phase_angles) == dict(net.phase_angles),
+            tolerances=(rel.violation_tolerance, rel.relative_tolerance) == (net.violation_tolerance, net.relative_tolerance))
+        _extra[key] = dict(itf=itf, rel=rel, ritf=ritf, same=same, rel_ids=list(rel.station_ids))
+    return _extra[key]
+
+
 def build_all():
-    """construct every site instance BEFORE any query, so that the queries that follow are interleaved
-    between live instances with no construction in between"""
+    """construct every site instance (network, Interface, JSON-reloaded twin) BEFORE any query, so that the
+    queries that follow are interleaved between live instances with no construction in between"""
     for site, basic, idx, kw in configs():
         get_net(site, basic, idx)
+    for site, basic, idx, kw in configs():
+        get_extra(site, basic, idx)
 
 
 def truth(site, ids, kw):
@@ -94,11 +123,32 @@ def run_impl(net, X, T):
     return out[0], out[1], raised
 
 
+def ask_iface(itf, ids, X, raised, what):
+    from acnportal.acnsim.interface import InvalidScheduleError
+    try:
+        return bool(itf.is_feasible({ids[i]: list(X[i]) for i in range(len(ids))}))
+    except InvalidScheduleError:
+        return None
+    except Exception as e:  # noqa
+        raised.append("%s: %s: %s" % (what, type(e).__name__, str(e)[:120]))
+        return False
+
+
 def observe(site, basic, idx, X, T):
+    import numpy as np
     net = get_net(site, basic, idx)
+    ex = get_extra(site, basic, idx)
     kw = kw_of(site, idx)
     ids = list(net.station_ids)
     feas, feas_lin, raised = run_impl(net, X, T)
+    iface = ask_iface(ex["itf"], ids, X, raised, "Interface.is_feasible")
+    try:
+        reload_feas = bool(ex["rel"].is_feasible(np.array(X, dtype=float).reshape(len(X), T)))
+    except Exception as e:  # noqa
+        reload_feas = False
+        raised.append("reloaded.is_feasible: %s: %s" % (type(e).__name__, str(e)[:120]))
+    # the reloaded network is addressed by the ORIGINAL station ids (row i belongs to station ids[i])
+    reload_iface = ask_iface(ex["ritf"], ids, X, raised, "Interface(reloaded).is_feasible")
     trs, pods, panels = truth(site, ids, kw)
     volts = [float(v) for v in net._voltages]
     power = [sum(volts[i] * X[i][0] for i in mem) for _, mem in trs]
@@ -106,7 +156,8 @@ def observe(site, basic, idx, X, T):
     A = net.constraint_matrix
     sec = [j for j, nm in enumerate(names) if "Secondary" in nm]
     uncovered = [ids[i] for i in range(len(ids)) if not any(A[j][i] != 0 for j in sec)]
-    return dict(feasible=feas, feasible_lin=feas_lin, raised=raised, power=power,
+    return dict(feasible=feas, feasible_lin=feas_lin, iface=iface, reload=reload_feas, reload_iface=reload_iface,
+                reload_same=ex["same"], raised=raised, power=power,
                 phases=[float(p) for p in net._phase_angles], uncovered=uncovered, ids=ids,
                 max_rates=[float(x) for x in net.max_pilot_signals])
 
@@ -204,6 +255,11 @@ def gen_cases(rng, n, tier):
             except Exception as e:  # noqa
                 cases.append(crash_case(site, basic, idx, e))
             prev = [site, basic, idx]
+    # report order only: a case with a misjudged schedule goes before purely structural findings
+    for k, c in enumerate(cases):
+        if "crash" not in c["input"] and not c["input"].get("crash") and monitor_(c):
+            cases.insert(0, cases.pop(k))
+            break
     return cases
 
 
@@ -220,9 +276,12 @@ def one_case(rng, cx, site, basic, idx, kw, T, prev, X=None):
     cur = c06.currents_exact(A, cis, X, T, False)
     curl = c06.currents_exact(A, cis, X, T, True)
     amb = c06.robust(cur, L, vt, rt) is None or c06.robust(curl, L, vt, rt) is None
-    coq = ("{| k_site := %s; k_T := %d%%nat; k_X := %s; j_feasible := %s; j_feasible_lin := %s; j_power := %s |}" % (
-        site_name(site, basic, idx), T, coq_list([coq_list([q(v) for v in r]) for r in X]),
-        coq_bool(impl["feasible"]), coq_bool(impl["feasible_lin"]), coq_list([q(p) for p in impl["power"]])))
+    ob = lambda v: "None" if v is None else "(Some %s)" % coq_bool(v)
+    coq = ("{| k_site := %s; k_T := %d%%nat; k_X := %s; j_feasible := %s; j_feasible_lin := %s; j_iface := %s; "
+           "j_reload := %s; j_reload_iface := %s; j_power := %s |}" % (
+               site_name(site, basic, idx), T, coq_list([coq_list([q(v) for v in r]) for r in X]),
+               coq_bool(impl["feasible"]), coq_bool(impl["feasible_lin"]), ob(impl["iface"]), coq_bool(impl["reload"]),
+               ob(impl["reload_iface"]), coq_list([q(p) for p in impl["power"]])))
     inp = dict(site=site, basic=basic, idx=idx, X=X, T=T, before=prev)
     return dict(input=inp, impl=impl, coq=coq, ambiguous=amb, nontrivial=True,
                 kind="%s/%s/%s/%s/%s" % (site, "v%g" % kw.get("voltage", 208), kind, "+".join(sorted(set(colkinds))),
@@ -242,6 +301,17 @@ def line_currents(idx, phases, x):
 
 
 def monitor(case):
+    r = monitor_(case)
+    if r:
+        return r
+    # structural difference of the JSON-reloaded network (reported when no misjudged schedule is at hand)
+    diff = [k for k, v in case["impl"].get("reload_same", {}).items() if not v]
+    if diff:
+        return "network reloaded from its own JSON differs from the original in: %s" % ", ".join(diff)
+    return None
+
+
+def monitor_(case):
     inp, impl = case["input"], case["impl"]
     if inp.get("crash"):
         return "site factory / network raised %s" % impl["crash"]
@@ -260,11 +330,18 @@ def monitor(case):
         return None
     if any(v < 0 for r in X for v in r):
         return None
-    # "every schedule the network reports feasible": the phase-aware report and the linear relaxation
+    # "every schedule the network reports feasible": the phase-aware report, the linear relaxation, the
+    # report through the Interface, the reports of the JSON-reloaded network
     if impl["feasible"]:
         how = "feasible"
     elif impl["feasible_lin"]:
         how = "feasible (linear=True)"
+    elif impl.get("iface"):
+        how = "feasible by Interface.is_feasible"
+    elif impl.get("reload"):
+        how = "feasible by the JSON-reloaded network"
+    elif impl.get("reload_iface"):
+        how = "feasible by Interface.is_feasible on the JSON-reloaded network"
     else:
         return None
     trs, pods, panels = truth(site, ids, kw)
@@ -452,17 +529,21 @@ def replay(w):
     if inp.get("crash"):
         try:
             _nets.clear()
+            _extra.clear()
             build_all()
         except Exception as e:  # noqa
             return "site factory raised %s" % type(e).__name__
         return None
     _nets.clear()
+    _extra.clear()
     if inp.get("before"):
         # re-create the interleaving: both instances alive, the other one queried first with a schedule
         # of the same width, nothing constructed in between
         b = inp["before"]
         nb = get_net(b[0], b[1], b[2])
         get_net(inp["site"], inp["basic"], inp["idx"])
+        get_extra(b[0], b[1], b[2])
+        get_extra(inp["site"], inp["basic"], inp["idx"])
         run_impl(nb, [[0.0] * inp["T"]] * len(nb.station_ids), inp["T"])
     impl = observe(inp["site"], inp["basic"], inp["idx"], inp["X"], inp["T"])
     return monitor(dict(input=inp, impl=impl))
